@@ -325,7 +325,7 @@ func grpcValueGen(d *m.Design, a *m.Attr, metadata []m.Mapping) *rapid.Generator
 			if _, set := v.Get(mp.Attr); !set && !f.Required {
 				continue
 			}
-			mv := printableASCII(genValue(t, d, f.Attr, Loc{Where: "header", NoEmpty: true, NonEmptyArray: true, MustSetDefaults: true}, 2, nil))
+			mv := printableASCII(genValue(t, d, f.Attr, Loc{Where: "header", NoEmpty: true, NonEmptyArray: true, MustSetDefaults: true, PrintableASCII: true}, 2, nil))
 			if kf.Open("C10-int-and-uint-carried-as-32-bit") {
 				mv = clamp32(d, f.Attr, mv, 0)
 			}
